@@ -16,7 +16,7 @@ PROPS = {
         explanation='decoder total (never panic), complete for RFC framing, sound, named rejection classes; oracle = independent three-valued reference parser',
     ),
     'C04': dict(
-        lean='CoapLite.Props.C04', domains=['PKT'], line_filter=r'PKT (enc|trace) ', rule=PKT_RULE,
+        lean='CoapLite.Props.C04', domains=['PKT'], line_filter=r'PKT (enc|trace|apitrace) ', rule=PKT_RULE,
         explanation='exact wire length, limit iff, refusal of over-long option values',
     ),
     'C06': dict(
